@@ -23,11 +23,13 @@ def main():
         rep.mc_violation("C10_reset", r)
     rr = mc.rtamt_mc("C10_devon", F[:6], cfgs, gaps=(2, 3), maxlen=3, dev=["resetKeepsViol"], invariants=["InvC13"],
                      properties=["ActC10"], expect_violation=True)
-    rep.extra["deviation_on_counterexample"] = {"resetKeepsViol": rr["violated"]}
+    r2 = mc.rtamt_mc("C10_devon2", F[:6], cfgs, gaps=(2, 3), maxlen=3, dev=["staleKeepsViol"], invariants=["InvC13"],
+                     properties=["ActC10"], expect_violation=True)
+    rep.extra["deviation_on_counterexample"] = {"resetKeepsViol": rr["violated"], "staleKeepsViol (reset() after a second pastify())": r2["violated"]}
 
     # (B) specification -> code: behaviours of the life-cycle machine simulated by TLC, replayed on the real library
     import behaviours
-    bres, behs = behaviours.simulate("C10_sim", U, ["x", "y"], num=(60 if quick else 600), depth=(7 if quick else 9), seed=core.seed())
+    bres, behs = behaviours.simulate("C10_sim", U, ["x", "y"], num=(110 if quick else 900), depth=(7 if quick else 9), seed=core.seed())
     rep.add_mc("TLC simulation of Rtamt.tla (Parse/Pastify/Update/Reset): behaviours generated for replay", bres, exhaustive=False)
     if bres["violated"]:
         rep.mc_violation("C10_sim", bres)
@@ -78,6 +80,9 @@ def main():
         for k in range(pre):
             evs.append(ev_update(t, sample_at(w1, k), 1))
             t += rng.choice([10, 10, 5, 20, 13])
+        late = not (ops_of(phi) & FUT) or pastify          # the installed formula has no future operator: pastify() again is harmless
+        if late and rng.random() < 0.2:
+            evs.append(ev_pastify(1))                      # ... and the reset() that follows must work like any other (seed C10-g)
         evs.append(ev_reset(1))
         if rng.random() < 0.15:
             evs.append(ev_reset(1))
@@ -88,6 +93,8 @@ def main():
             for k in range(len(ws[vs[0]])):
                 evs.append(ev_update(t, sample_at(ws, k), 1))
                 t += rng.choice([10, 10, 5, 20, 13])
+            if late and rng.random() < 0.2:
+                evs.append(ev_pastify(1))
             evs.append(ev_reset(1))
         evs += [ev_parse(2)] + ([ev_pastify(2)] if pastify else [])
         t1, t2 = rng.choice([0, 50, 1000]), 0
